@@ -17,6 +17,7 @@ import (
 	"time"
 
 	"github.com/edgexfoundry/device-sdk-go/v4/pkg/interfaces/mocks"
+	dsModels "github.com/edgexfoundry/device-sdk-go/v4/pkg/models"
 	"github.com/edgexfoundry/go-mod-core-contracts/v4/clients/logger"
 	"github.com/edgexfoundry/go-mod-core-contracts/v4/models"
 	"github.com/stretchr/testify/mock"
@@ -122,6 +123,11 @@ func (id c17Identity) capsResp() []byte {
 	return p
 }
 
+type c17PerIP struct {
+	mode string
+	id   c17Identity
+}
+
 // c17Host is one scripted host: a listener plus a behaviour applied to every accepted connection
 type c17Host struct {
 	mode string
@@ -132,6 +138,12 @@ type c17Host struct {
 	accepts int
 	conns   []net.Conn
 	closed  bool
+	// wildcard hosts (listening on 0.0.0.0): behaviour per dialled local address, default h.mode/h.id;
+	// the time and local address of every accepted connection
+	perIP    map[string]c17PerIP
+	t0       time.Time
+	accTimes []time.Duration
+	accIPs   []string
 	// furthest message type seen from a client (for the notes/evidence only)
 	seen []int
 }
@@ -192,6 +204,14 @@ func (h *c17Host) acceptLoop() {
 		}
 		h.conns = append(h.conns, c)
 		mode, id := h.mode, h.id
+		if h.perIP != nil {
+			lip, _, _ := net.SplitHostPort(c.LocalAddr().String())
+			h.accTimes = append(h.accTimes, time.Since(h.t0))
+			h.accIPs = append(h.accIPs, lip)
+			if p, ok := h.perIP[lip]; ok {
+				mode, id = p.mode, p.id
+			}
+		}
 		h.mu.Unlock()
 		go h.serve(c, mode, id)
 	}
@@ -703,6 +723,148 @@ func c17Run(f []string, devs *[]models.Device, devMu *sync.Mutex, updated *[]str
 	}
 }
 
+// "discover <subnets,comma separated> <asyncLimit> <probe_s> <max_s> <budget_ms> <late_slack_ms> <default_mode> <host>;..|-"
+//   The run is started through Driver.Discover (the SDK's entry point) with the configuration
+//   DiscoverySubnets/ProbeAsyncLimit/ProbeTimeoutSeconds/MaxDiscoverDurationSeconds/ScanPort set accordingly.
+//   One listener on 0.0.0.0:<scan port> plays every host of 127.0.0.0/8: <default_mode> for every address,
+//   except host = <ip>,<mode>,<vendor>,<model>,<idtype>,<ridhex>.
+//   A dial is "late" if it is accepted more than max_s*1000 + late_slack_ms after the start (max_s = 0: never).
+//   The watchdog gives up as soon as a late dial is seen, or after budget_ms.
+// answer: "<returned|blocked> <elapsed_ms> published=<number of results handed to the SDK channel> reported=<name@ip,..>
+//          dials=<n> late=<n> lastdial_ms=<t> probed=<ip,.. of the special hosts that were dialled> released=<bool>"
+func c17Discover(f []string) string {
+	async, _ := strconv.Atoi(f[2])
+	probeS, _ := strconv.Atoi(f[3])
+	maxS, _ := strconv.Atoi(f[4])
+	budget, _ := strconv.Atoi(f[5])
+	lateSlack, _ := strconv.Atoi(f[6])
+	defMode := f[7]
+	per := map[string]c17PerIP{}
+	if f[8] != "-" {
+		for _, hsp := range strings.Split(f[8], ";") {
+			p := strings.Split(hsp, ",")
+			v, _ := strconv.ParseUint(p[2], 10, 32)
+			m, _ := strconv.ParseUint(p[3], 10, 32)
+			it, _ := strconv.ParseUint(p[4], 10, 8)
+			mode := p[1]
+			id := c17Identity{hasCaps: true, vendor: uint32(v), model: uint32(m), fw: []byte("1.2.3"),
+				hasIdent: mode != "noident", idType: byte(it), rid: c17Unhex(p[5])}
+			if mode == "noident" {
+				mode = "correct"
+			}
+			per[p[0]] = c17PerIP{mode, id}
+		}
+	}
+	ln, err := net.Listen("tcp4", ":0")
+	if err != nil {
+		return "harness-error listen " + err.Error()
+	}
+	h := &c17Host{mode: defMode, ln: ln, perIP: per, t0: time.Now()}
+	port := h.port()
+
+	resultCh := make(chan []dsModels.DiscoveredDevice, 4)
+	driver.configMu.Lock()
+	oldCfg := driver.config
+	driver.config = &ServiceConfig{AppCustom: CustomConfig{
+		DiscoverySubnets:           f[1],
+		ProbeAsyncLimit:            async,
+		ProbeTimeoutSeconds:        probeS,
+		ScanPort:                   port,
+		MaxDiscoverDurationSeconds: maxS,
+	}}
+	driver.configMu.Unlock()
+	oldCh := driver.deviceCh
+	driver.deviceCh = resultCh
+	defer func() {
+		driver.configMu.Lock()
+		driver.config = oldCfg
+		driver.configMu.Unlock()
+		driver.deviceCh = oldCh
+	}()
+
+	h.mu.Lock()
+	h.t0 = time.Now()
+	h.mu.Unlock()
+	go h.acceptLoop()
+	done := make(chan error, 1)
+	t0 := time.Now()
+	go func() { done <- driver.Discover() }()
+
+	lateAfter := time.Duration(maxS)*time.Second + time.Duration(lateSlack)*time.Millisecond
+	stats := func() (n, late int, last time.Duration, ips map[string]bool) {
+		h.mu.Lock()
+		defer h.mu.Unlock()
+		ips = map[string]bool{}
+		for i, t := range h.accTimes {
+			n++
+			if maxS > 0 && t > lateAfter {
+				late++
+			}
+			if t > last {
+				last = t
+			}
+			ips[h.accIPs[i]] = true
+		}
+		return
+	}
+	status := "blocked"
+	var elapsed int64
+	deadline := time.After(time.Duration(budget) * time.Millisecond)
+	tick := time.NewTicker(50 * time.Millisecond)
+	defer tick.Stop()
+wait:
+	for {
+		select {
+		case <-done:
+			status = "returned"
+			elapsed = time.Since(t0).Milliseconds()
+			break wait
+		case <-deadline:
+			elapsed = int64(budget)
+			break wait
+		case <-tick.C:
+			if _, late, _, _ := stats(); late > 0 {
+				elapsed = time.Since(t0).Milliseconds()
+				break wait
+			}
+		}
+	}
+	n, late, last, ips := stats()
+	h.Close() // releases every probe still in flight; later dials are refused at once
+	released := status == "returned"
+	if !released {
+		select {
+		case <-done:
+			released = true
+		case <-time.After(40 * time.Second):
+		}
+	}
+	published := 0
+	var names []string
+drain:
+	for {
+		select {
+		case res := <-resultCh:
+			published++
+			for _, d := range res {
+				names = append(names, c17Hex([]byte(d.Name))+"@"+fmt.Sprint(d.Protocols["tcp"]["host"]))
+			}
+		default:
+			break drain
+		}
+	}
+	sort.Strings(names)
+	var probed []string
+	for ip := range per {
+		if ips[ip] {
+			probed = append(probed, ip)
+		}
+	}
+	sort.Strings(probed)
+	return fmt.Sprintf("%s %d published=%d reported=%s dials=%d late=%d lastdial_ms=%d probed=%s released=%v",
+		status, elapsed, published, strings.Join(names, ","), n, late, last.Milliseconds(), strings.Join(probed, ","), released)
+}
+
 func TestVerifC17(t *testing.T) {
 	lines, w, done := verifIO(t)
 	defer done()
@@ -745,7 +907,7 @@ func TestVerifC17(t *testing.T) {
 	answers := make([]string, len(lines))
 	var wg sync.WaitGroup
 	// timed scenarios run concurrently with everything else (each has its own watchdog)
-	var runLines []int
+	var runLines, discLines []int
 	for i, line := range lines {
 		f := strings.Fields(line)
 		switch f[0] {
@@ -757,8 +919,18 @@ func TestVerifC17(t *testing.T) {
 			}(i, f)
 		case "run":
 			runLines = append(runLines, i)
+		case "discover":
+			discLines = append(discLines, i)
 		}
 	}
+	// runs through Driver.Discover use the one global configuration: one after the other
+	wg.Add(1)
+	go func() {
+		defer wg.Done()
+		for _, i := range discLines {
+			answers[i] = c17Discover(strings.Fields(lines[i]))
+		}
+	}()
 	// GetDeviceByName: a device is found iff one is registered under exactly that name
 	sm.On("GetDeviceByName", mock.Anything).Return(func(name string) (models.Device, error) {
 		devMu.Lock()
@@ -816,7 +988,7 @@ func TestVerifC17(t *testing.T) {
 		switch f[0] {
 		case "name":
 			jobs <- job{i, f}
-		case "probe", "run":
+		case "probe", "run", "discover":
 		default:
 			answers[i] = "error bad request"
 		}
